@@ -28,7 +28,10 @@ Z4 == <<0, 0, 0, 0>>  P1 == <<63, 128, 0, 0>>  M1 == <<191, 128, 0, 0>>
 Forest ==
   [roots |-> <<1, 7>>,
    inst |-> <<
-     [class |-> "Folder", name |-> <<82, 111, 111, 116>>, parent |-> 0, kids |-> <<2, 3, 4, 5, 6>>, props |-> <<>>],
+     \* two properties the database does not know: the reader has to take their types from the wire type
+     [class |-> "Folder", name |-> <<82, 111, 111, 116>>, parent |-> 0, kids |-> <<2, 3, 4, 5, 6>>,
+        props |-> << <<"VerifForeignF32", [t |-> "Float32", v |-> <<63, 192, 0, 0>>]>>,
+                     <<"VerifForeignI32", [t |-> "Int32", v |-> <<255, 255, 255, 249>>]>> >>],
      [class |-> "IntValue", name |-> <<73>>, parent |-> 1, kids |-> <<>>,
         props |-> << <<"Value", [t |-> "Int64", v |-> <<0, 0, 0, 0, 119, 53, 148, 0>>]>> >>],           \* 2 000 000 000
      [class |-> "IntValue", name |-> <<74>>, parent |-> 1, kids |-> <<>>,
